@@ -56,6 +56,9 @@ using lt::TMO;
     s      = replace_all(s, "vf::lt::Tracked<(vf::lt::Kind)0>", "TCM");
     s      = replace_all(s, "vf::lt::Tracked<(vf::lt::Kind)1>", "TMO");
     s      = replace_all(s, "vf::lt::Tracked<(vf::lt::Kind)2>", "TCO");
+    s      = replace_all(s, ", ", ",");
+    s      = replace_all(s, " >", ">");
+    s      = replace_all(s, " ", "_"); // one blank-free token per type: "const_int&", "L::tuple<int,long_int>"
     return s;
 }
 template <typename T>
